@@ -250,6 +250,31 @@ pub fn c08(g: &mut Gen) {
             }
         }
     }
+    // skip connections between positions of DIFFERENT shape (same element count): spatial into re-arranged spatial, spatial into
+    // the flattened input of a dense layer — under every accumulation the target produces the shape it announces
+    for acc in ACCS.iter() {
+        let c = ArchCfg { dropout: false, wscale: 0.5, ..ArchCfg::small() };
+        let a = NetSpec { input: Shape::Triple(4, 2, 2), builds: vec![
+            Build::Layer(InnerSpec::Deconv { filters: 1, act: "tanh".into(), k: (2, 2), s: (2, 2), p: (0, 0), dropout: None, ks: vec![weights(g, &Shape::Triple(4, 2, 2), 0.4)] }),
+            Build::Layer(InnerSpec::Conv { filters: 2, act: "linear".into(), k: (1, 1), s: (1, 1), p: (0, 0), d: (1, 1), dropout: None, ks: (0..2).map(|_| weights(g, &Shape::Triple(1, 1, 1), 0.8)).collect() }),
+            Build::Connect(0, 1)], skipacc: acc.to_string(), loopacc: "mean".into(), opt: None, obj: "mse".into(), clamp: None };
+        let b = NetSpec { input: Shape::Triple(1, 4, 4), builds: vec![
+            Build::Layer(InnerSpec::Conv { filters: 1, act: "tanh".into(), k: (3, 3), s: (1, 1), p: (1, 1), d: (1, 1), dropout: None, ks: vec![weights(g, &Shape::Triple(1, 3, 3), 0.4)] }),
+            Build::Layer(dense_spec(g, &c, 16, 3, "linear", true)), Build::Connect(0, 1)], skipacc: acc.to_string(), loopacc: "mean".into(), opt: None, obj: "mse".into(), clamp: None };
+        let cnet = NetSpec { input: Shape::Triple(2, 3, 2), builds: vec![
+            Build::Layer(InnerSpec::Deconv { filters: 1, act: "tanh".into(), k: (1, 3), s: (1, 1), p: (0, 0), dropout: None, ks: vec![weights(g, &Shape::Triple(2, 1, 3), 0.4)] }),
+            Build::Layer(InnerSpec::Maxpool { k: (1, 2), s: (1, 2) }),
+            Build::Layer(dense_spec(g, &c, 6, 2, "linear", true)), Build::Connect(0, 1)], skipacc: acc.to_string(), loopacc: "mean".into(), opt: None, obj: "mse".into(), clamp: None };
+        for (ni, net) in [a, b, cnet].iter().enumerate() {
+            let x = input_for(g, &net.input);
+            g.push(format!("net {} predict {}", net.token(), qt(&x)), Tol::Tight, &format!("connected-across-shapes{}/{}", ni, acc), true);
+            g.push(format!("net {} shapes", net.token()), Tol::Exact, &format!("connected-across-shapes{}/shapes", ni), true);
+            let out = match ni { 0 => Sh::Vol(2, 4, 4), 1 => Sh::Flat(3), _ => Sh::Flat(2) };
+            let t = target_for(g, &out, "mse");
+            g.push(format!("net {} backward {} {}", net.token(), qt(&x), qt(&t)), Tol::Tight, &format!("connected-across-shapes{}/gradient-shapes", ni), true);
+        }
+    }
+
 }
 
 /* ---------------- C12 ---------------- */
@@ -604,6 +629,18 @@ pub fn c13(g: &mut Gen) {
         let net = one_param_net(0.5, 0.01);
         g.push(format!("net {} relearn 1 {} 0 1 {} 0", net.token(), sample, e), Tol::Tight, "second-run/no-validation", true);
     }
+    // STRICTLY RISING windows that straddle the epoch at which the measured accuracy jumps from 0 to 1 (lr = 0.4375: epoch 7;
+    // lr = 0.5: epoch 2): the stop test looks at the losses alone, whatever the accuracy does meanwhile
+    for (lr, scripts) in [(0.4375f32, vec![vec![9.0f32, 8.0, 7.0, 6.0, 5.0, 1.0, 2.0, 3.0, 4.0, 5.0, 6.0, 7.0], vec![9.0, 8.0, 7.0, 6.0, 1.0, 2.0, 3.0, 4.0, 5.0, 6.0, 7.0, 8.0],
+                                            vec![9.0, 8.0, 7.0, 1.0, 2.0, 3.0, 4.0, 5.0, 6.0, 7.0, 8.0, 9.0], vec![1.0, 2.0, 1.0, 2.0, 1.0, 2.0, 3.0, 4.0, 5.0, 6.0, 7.0, 8.0]]),
+                          (0.5f32, vec![vec![1.0f32, 2.0, 3.0, 4.0, 5.0, 6.0, 7.0, 8.0, 9.0, 10.0, 11.0, 12.0], vec![2.0, 1.0, 2.0, 3.0, 4.0, 5.0, 6.0, 7.0, 8.0, 9.0, 10.0, 11.0]])] {
+        for s in scripts.iter() {
+            for t in 1..=4 {
+                let net = one_param_net(0.5, lr);
+                g.push(format!("net {} learn 1 {} 1 1 {} {} 1 12 {} {}", net.token(), sample, sample, t, s.len(), q1(s)), Tol::Tight, &format!("rising-across-accuracy-jump/T{}", t), true);
+            }
+        }
+    }
     // hook-free family: the error contracts (lr < 1) or expands (lr > 1) by |1 - 2 lr| per epoch, or oscillates around a plateau
     for lr in [0.1f32, 0.4, 0.5, 0.9, 1.0, 1.05, 1.2, 1.5] {
         for t in 1..=3 {
@@ -728,6 +765,26 @@ pub fn c09(g: &mut Gen) {
         let s = samples_tok(g, &net, &Sh::Flat(2), 3);
         g.push(format!("net {} validate 3 {} {} 0", net.token(), s, hx(0.1)), Tol::Tight, "flagless-block/validate", true);
         g.push(format!("net {} validate 3 {} {} 1", net.token(), s, hx(0.1)), Tol::Tight, "flagless-block/validate-while-training", true);
+    }
+    // a training call with an epoch budget of ZERO (with and without validation data, also entered with every flag already on):
+    // nothing is trained, and the network it returns predicts without dropout like after any other call
+    for kind in 0..3usize {
+        let c = ArchCfg { dropout: false, ..cfg.clone() };
+        let mut d1 = dense_spec(g, &c, 3, 5, "tanh", true);
+        if let InnerSpec::Dense { dropout, .. } = &mut d1 { *dropout = Some(0.5); }
+        let builds = match kind {
+            0 => vec![Build::Layer(d1), Build::Layer(dense_spec(g, &c, 5, 2, "tanh", true))],
+            1 => { let mut b = dense_spec(g, &c, 3, 3, "tanh", true); if let InnerSpec::Dense { dropout, .. } = &mut b { *dropout = Some(0.5); }
+                   vec![Build::Feedback { inner: vec![b], loops: 2, inskips: false, outskips: false, acc: "mean".into() }, Build::Layer(dense_spec(g, &c, 3, 2, "tanh", true))] }
+            _ => vec![Build::Layer(d1), Build::Layer({ let mut m = dense_spec(g, &c, 5, 5, "tanh", false); if let InnerSpec::Dense { dropout, .. } = &mut m { *dropout = Some(0.25); } m }),
+                      Build::Layer(dense_spec(g, &c, 5, 2, "tanh", true))],
+        };
+        let net = NetSpec { input: Shape::Single(3), builds, skipacc: "add".into(), loopacc: "mean".into(), opt: Some(OptSpec::Sgd(0.05, None)), obj: "mse".into(), clamp: None };
+        let s = samples_tok(g, &net, &Sh::Flat(2), 3);
+        let v = samples_tok(g, &net, &Sh::Flat(2), 2);
+        g.push(format!("net {} learn 3 {} 0 2 0 0", net.token(), s), Tol::Loose, "zero-epochs/learn", true);
+        g.push(format!("net {} learn 3 {} 1 2 {} 5 2 0 0", net.token(), s, v), Tol::Loose, "zero-epochs/learn-with-validation", true);
+        g.push(format!("net {} learnon 3 {} 0 2 0 0", net.token(), s), Tol::Loose, "zero-epochs/learn-entered-with-flags-on", true);
     }
     // a network that STARTS with a layer without a flag (a max-pool on the image) and has dropout further on
     for kind in 0..2usize {
@@ -909,6 +966,24 @@ pub fn c04(g: &mut Gen) {
         let net = NetSpec { input: Shape::Single(3), builds, skipacc: "add".into(), loopacc: "mean".into(), opt: Some(OptSpec::Sgd(0.05, None)), obj: "mse".into(), clamp: None };
         let s = samples_tok(g, &net, &Sh::Flat(2), 5);
         g.push(format!("net {} learn 5 {} 0 2 3 0", net.token(), s), Tol::Loose, &format!("coupled-dense-block/{}/L{}", acc, loops), true);
+    }
+    // convolutions and deconvolutions with kernels that are wider than high and higher than wide (1x3, 2x3, 3x1, 3x2; several
+    // channels and filters) under every optimizer: every scalar of every kernel takes the group's one step
+    for (oi, o) in opts.iter().enumerate() {
+        for (ki, k) in [(1usize, 3usize), (2, 3), (3, 1), (3, 2)].iter().enumerate() {
+            if !g.ctx.thorough() && (oi + ki) % 2 == 1 && ki >= 2 { continue; }
+            let cb = ArchCfg { wscale: 0.5, acts: vec!["tanh"], dropout: false, ..ArchCfg::small() };
+            let deconv = (oi + ki) % 3 == 2;
+            let (first, count) = if deconv {
+                (InnerSpec::Deconv { filters: 2, act: "tanh".into(), k: *k, s: (1, 1), p: (0, 0), dropout: None, ks: (0..2).map(|_| weights(g, &Shape::Triple(2, k.0, k.1), 0.4)).collect() }, 2 * (3 + k.0) * (4 + k.1))
+            } else {
+                (InnerSpec::Conv { filters: 2, act: "tanh".into(), k: *k, s: (1, 1), p: (0, 0), d: (1, 1), dropout: None, ks: (0..2).map(|_| weights(g, &Shape::Triple(2, k.0, k.1), 0.4)).collect() }, 2 * (5 - k.0) * (6 - k.1))
+            };
+            let builds = vec![Build::Layer(first), Build::Layer(dense_spec(g, &cb, count, 2, "linear", true))];
+            let net = NetSpec { input: Shape::Triple(2, 4, 5), builds, skipacc: "add".into(), loopacc: "mean".into(), opt: Some(o.clone()), obj: "mse".into(), clamp: None };
+            let s = samples_tok(g, &net, &Sh::Flat(2), 3);
+            g.push(format!("net {} learn 3 {} 0 2 2 0", net.token(), s), Tol::Loose, &format!("rectangular-kernels/{}/{}x{}", o.kind(), k.0, k.1), true);
+        }
     }
     // every bias on/off pattern of a three-layer MLP (the per-layer bias gradients are summed over the batch
     // layer by layer; a layer without bias sits between layers with one), B = 2 and B > N
@@ -1137,6 +1212,22 @@ pub fn c11(g: &mut Gen) {
         net.opt = Some(OptSpec::Sgd(0.05, None));
         let s = samples_tok(g, &net, &Sh::Flat(2), 3);
         g.push(format!("net {} learn 3 {} 0 2 2 0", net.token(), s), Tol::Loose, &format!("trained-block/conv-with-dropout/L{}", loops), true);
+    }
+    // a stand-alone validate on a network whose BLOCK carries dropout (dense, convolution, deconvolution inside): afterwards
+    // the block is still the plain repeated application (checked by the predict-after-validate oracle and the flags reported)
+    for (bi, loops, i, o) in [(0usize, 3usize, true, true), (0, 2, false, false), (1, 2, false, true), (2, 2, true, false)] {
+        let cb = ArchCfg { wscale: 0.5, acts: vec!["tanh"], dropout: false, ..ArchCfg::small() };
+        let (input, inner, count) = match bi {
+            0 => { let mut d1 = dense_spec(g, &cb, 4, 4, "tanh", true); let mut d2 = dense_spec(g, &cb, 4, 4, "tanh", false);
+                   if let InnerSpec::Dense { dropout, .. } = &mut d1 { *dropout = Some(0.5); } if let InnerSpec::Dense { dropout, .. } = &mut d2 { *dropout = Some(0.5); }
+                   (Shape::Single(4), vec![d1, d2], 4) }
+            1 => (Shape::Triple(1, 3, 3), vec![InnerSpec::Conv { filters: 1, act: "tanh".into(), k: (3, 3), s: (1, 1), p: (1, 1), d: (1, 1), dropout: Some(0.5), ks: vec![weights(g, &Shape::Triple(1, 3, 3), 0.5)] }], 9),
+            _ => (Shape::Triple(1, 3, 3), vec![InnerSpec::Deconv { filters: 1, act: "tanh".into(), k: (3, 3), s: (1, 1), p: (1, 1), dropout: Some(0.5), ks: vec![weights(g, &Shape::Triple(1, 3, 3), 0.5)] }], 9),
+        };
+        let builds = vec![Build::Feedback { inner, loops, inskips: i, outskips: o && bi == 0, acc: "add".into() }, Build::Layer(dense_spec(g, &cb, count, 2, "linear", true))];
+        let net = NetSpec { input, builds, skipacc: "add".into(), loopacc: "mean".into(), opt: None, obj: "mse".into(), clamp: None };
+        let s = samples_tok(g, &net, &Sh::Flat(2), 3);
+        g.push(format!("net {} validate 3 {} {} 0", net.token(), s, hx(0.1)), Tol::Tight, &format!("validate-then-predict/block-dropout{}", bi), true);
     }
     // exact arithmetic: a linear layer that multiplies by a power of two, inputs that are small integers times one power of
     // two (ordinary, deep in the subnormal range, just above it): every sum is exact, a mean is ONE correctly rounded
@@ -1945,6 +2036,20 @@ pub fn c17(g: &mut Gen) {
                     skipacc: "add".into(), loopacc: acc.to_string(), opt: None, obj: "mse".into(), clamp: None };
                 let x = input_for(g, &net.input);
                 g.push(format!("net {} predict {}", net.token(), qt(&x)), Tol::Tight, &format!("flattened-range-end/{}x{}x{}/{}/k{}", ch, h, w, acc, k), true);
+            }
+        }
+    }
+    // input skips of a loop ADD the original input of layer a whatever accumulation the network's skip CONNECTIONS use (there
+    // are none here): every skip accumulation x add / mean / overwrite loop accumulation x 1-2 iterations
+    for sacc in ACCS.iter() {
+        for lacc in ["add", "mean", "overwrite"] {
+            for k in [1usize, 2] {
+                let d = |g: &mut Gen, bias: bool| dense_spec(g, &cfg, 3, 3, "tanh", bias);
+                let net = NetSpec { input: Shape::Single(3), builds: vec![Build::Layer(d(g, true)), Build::Layer(d(g, false)), Build::Layer(d(g, true)),
+                    Build::Loopback { outof: 1, into: 0, iterations: k, scale: "inv".into(), inskips: true }],
+                    skipacc: sacc.to_string(), loopacc: lacc.into(), opt: None, obj: "mse".into(), clamp: None };
+                let x = input_for(g, &net.input);
+                g.push(format!("net {} predict {}", net.token(), qt(&x)), Tol::Tight, &format!("inskips-under-skip-accumulation/{}/{}/k{}", sacc, lacc, k), true);
             }
         }
     }
